@@ -95,3 +95,23 @@ def classify_c18(text, rc, out, err):
         if last[0].strip() in ('ValueError: embedded null byte', 'embedded null byte'):  # (the second form: reported while the file is parsed, no traceback)
             return 'KF-C18-NUL'
     return None
+
+
+def classify_c08(text, fphase, dphase, where, rc, out, err, probes):
+    """KF-C08-SKIPPED-DEF.  Predicate: the definition of X stands AFTER an instruction that fails (later in the same phase, or in a later phase),
+    and [cleanup] refers to X.  Defect model: the run-time symbol table is filled by the main step of each `def`; the failing instruction stops
+    forward execution, so X is never added; [cleanup] still runs, and resolving the reference raises KeyError 'Name not in symbol table: "X"',
+    reported as INTERNAL_ERROR (exit 129) in [cleanup] - or dropped in favour of the first failure when that was in [before-assert]; in both
+    cases the cleanup instruction does not run (no probe).  Nothing else is wrong."""
+    if not is_known('KF-C08-SKIPPED-DEF'):
+        return None
+    if where != 'after' and dphase == fphase:
+        return None
+    if probes != []:
+        return None
+    if rc == 129 and out == 'INTERNAL_ERROR\n' and 'Name not in symbol table: "X"' in err and 'In [cleanup]' in err:
+        return 'KF-C08-SKIPPED-DEF'
+    # after a failure in [before-assert] the report keeps that first failure (HARD_ERROR In [before-assert]); the KeyError of [cleanup] is dropped
+    if fphase == 'before-assert' and rc == 128 and out == 'HARD_ERROR\n' and 'In [before-assert]' in err:
+        return 'KF-C08-SKIPPED-DEF'
+    return None
